@@ -65,7 +65,8 @@ def Refines1 {σ : Type} (K : Kind σ) (F : FS σ) (s : σ) (op : Op) : Prop :=
   K.inv (F s op).1 ∧ K.fix (F s op).1 = K.fix s ∧ K.abs (F s op).1 = (Ref.step (K.abs s) op).1 ∧
   OutRel (K.abs s) op (F s op).2 (Ref.step (K.abs s) op).2
 
-/-- **what a MountFS needs from a member**: every member-level call on a NUL-free path that does not
+/-- **what a MountFS needs from a member**: every member-level call on a NUL-free path (the only paths a
+MountFS hands on since /repo 48e26ed: `_delegate` refuses the others itself) that does not
 remove a fixture refines the reference -/
 def PrimRefines {σ : Type} (K : Kind σ) (F : FS σ) : Prop :=
   ∀ s op, K.inv s → isMemberOp op = true → noNulOp op → ¬ hitsFixture (K.fix s) op → Refines1 K F s op
@@ -224,11 +225,22 @@ theorem delegate_spec {K : Kind σ} {mps : List (List Name)} {ms : MState σ} (h
   have hcl : ∀ e ∈ idxFrom 1 mps, Clean e.1 :=
     idxFrom_clean mps 1 (fun mp hmp => clean_of_cleanName (hinv.clean mp hmp))
   rw [delegate, table, table_eq ms.mounts mps 1 hinv.keys]
-  exact RouteLemmas.delegate_tableOf (idxFrom 1 mps) hcl p _ cs hc (normpath_of_validate hv)
+  exact RouteLemmas.delegate_tableOf (idxFrom 1 mps) hcl p _ cs hc (not_nul_of_validate_ok hv) (normpath_of_validate hv)
 
-theorem delegate_err {ms : MState σ} {p : Str} (h : normpath p = .err .IllegalBackReference) :
-    delegate ms p = .err .IllegalBackReference := by
-  simp [delegate, Mount.delegate, h]
+/-- **`_delegate` refuses exactly the paths the reference's `validate` refuses, with the same class** (since
+/repo 48e26ed: invalid characters on the RAW path first, then `normpath`) -/
+theorem delegate_err {ms : MState σ} {p : Str} {e : Err} (h : validate p = .err e) : delegate ms p = .err e := by
+  by_cases hn : '\x00' ∈ p
+  · have : e = .InvalidCharsInPath := by
+      simp only [validate] at h
+      have hc : p.contains '\x00' = true := by simpa using hn
+      simp only [hc, if_true, Res.err.injEq] at h
+      exact h.symm
+    subst this
+    exact RouteLemmas.delegate_nul hn
+  · obtain ⟨he, hnorm⟩ := normpath_of_validate_err hn h
+    subst he
+    rw [delegate, RouteLemmas.delegate_noNul hn, hnorm]
 
 /-! ### calling one member -/
 
@@ -692,11 +704,11 @@ theorem glue_std {K : Kind σ} {mps : List (List Name)} {ms : MState σ} (hinv :
     (glue K mps ms).closed = false := hinv.opn
 
 /-- **the common body `fs, _path = self._delegate(path); return fs.<method>(_path, …)` refines the
-reference on the glued tree** — for every member-level call on a NUL-free path that is not the removal
+reference on the glued tree** — for every member-level call, on any path string, that is not the removal
 of a fixture (and, for `getinfo`, does not name a mount point: that case has the name fix-up) -/
 theorem routed_spec (D : FS State) (F : FS σ) {K : Kind σ} {mps : List (List Name)} {ms : MState σ}
     (hD : PrimRefines plainKind D) (hF : PrimRefines K F) (hinv : Inv K mps ms)
-    (op : Op) (p : Str) (hp : op.paths = [p]) (hm : isMemberOp op = true) (hnn : '\x00' ∉ p)
+    (op : Op) (p : Str) (hp : op.paths = [p]) (hm : isMemberOp op = true)
     (hfix : ¬ hitsFixture (fixOf K mps ms) op)
     (hgi : ∀ q, op = .getinfo q → ∀ mp ∈ mps, mp ≠ [] → validate p ≠ .ok mp)
     (hmode : ∀ q m, op = .openbin q m → (parseBinMode m).isSome = true) :
@@ -708,10 +720,8 @@ theorem routed_spec (D : FS State) (F : FS σ) {K : Kind σ} {mps : List (List N
   have hGc : G.closed = false := hinv.opn
   cases hv : validate p with
   | err e =>
-    obtain ⟨he, hn⟩ := normpath_of_validate_err hnn hv
-    subst he
-    have hr : r = (ms, .err .IllegalBackReference) := by
-      simp only [r, routed, delegate_err hn]
+    have hr : r = (ms, .err e) := by
+      simp only [r, routed, delegate_err hv]
     obtain ⟨h1, h2⟩ := step_of_validate_err hGc hp hv hmode
     rw [hr, h1]
     refine ⟨hinv, rfl, rfl, ?_, ?_⟩
@@ -729,7 +739,7 @@ theorem routed_spec (D : FS State) (F : FS σ) {K : Kind σ} {mps : List (List N
       have hnone := (routeSpec_idx_none mps 1 cs).1 hrs
       have hr : r = call D F ms 0 op := by
         simp only [r, routed, hdel, mapPaths_self hp]
-      have hDr := hD ms.dflt op hinv.dstd hm (by intro q hq; rw [hp] at hq; simp at hq; subst hq; exact hnn)
+      have hDr := hD ms.dflt op hinv.dstd hm (by intro q hq; rw [hp] at hq; simp at hq; subst hq; exact not_nul_of_validate_ok hv)
         (by cases op <;> simp [hitsFixture, plainKind])
       obtain ⟨d1, _, d3, d4⟩ := hDr
       simp only [plainKind, id] at d1 d3 d4
@@ -945,18 +955,17 @@ theorem renameInfo_false {b : Bool} (h : b = false) (n : Name) (o : Out) : renam
 
 /-- **`MountFS.getinfo`** -/
 theorem getinfo_spec (D : FS State) (F : FS σ) {K : Kind σ} {mps : List (List Name)} {ms : MState σ}
-    (hD : PrimRefines plainKind D) (hF : PrimRefines K F) (hinv : Inv K mps ms) (p : Str) (hnn : '\x00' ∉ p) :
+    (hD : PrimRefines plainKind D) (hF : PrimRefines K F) (hinv : Inv K mps ms) (p : Str) :
     StepOk K mps ms (.getinfo p) (getinfoRouted D F ms p) := by
   have hfix : ¬ hitsFixture (fixOf K mps ms) (.getinfo p) := by simp [hitsFixture]
   have hmode : ∀ q m, Op.getinfo p = .openbin q m → (parseBinMode m).isSome = true := by intro q m h; cases h
   have hroute : ∀ (h : ∀ q, Op.getinfo p = .getinfo q → ∀ mp ∈ mps, mp ≠ [] → validate p ≠ .ok mp),
       StepOk K mps ms (.getinfo p) (routed D F ms p .getinfo) := fun h =>
-    routed_spec D F hD hF hinv (.getinfo p) p rfl rfl hnn hfix h hmode
+    routed_spec D F hD hF hinv (.getinfo p) p rfl rfl hfix h hmode
   cases hv : validate p with
   | err e =>
     have h1 := hroute (by intro q _ mp _ _ h; rw [hv] at h; cases h)
-    obtain ⟨_, hn⟩ := normpath_of_validate_err hnn hv
-    simp only [getinfoRouted, routed, delegate_err hn] at h1 ⊢
+    simp only [getinfoRouted, routed, delegate_err hv] at h1 ⊢
     exact h1
   | ok cs =>
     have hcn := validate_clean p cs hv
@@ -1138,8 +1147,7 @@ theorem scanMountPoints_ok (D : FS State) (F : FS σ) {K : Kind σ} {mps : List 
         simp only [mkp, if_true, join_snoc]; rfl
       rw [hq]
       have hvq : validate (mkp true (cs ++ [n])) = .ok (cs ++ [n]) := validate_mkp true hall
-      have hnq : '\x00' ∉ mkp true (cs ++ [n]) := noNul_mkp true hall
-      have hspec := getinfo_spec D F hD hF hinv (mkp true (cs ++ [n])) hnq
+      have hspec := getinfo_spec D F hD hF hinv (mkp true (cs ++ [n]))
       obtain ⟨j1, j2, j3, j4⟩ := hspec
       rw [hg, getinfo_keeps] at j3
       have hok : ((Ref.step G (.getinfo (mkp true (cs ++ [n])))).2).isOk = true := by
@@ -1231,11 +1239,11 @@ theorem mem_take {α : Type} {l : List α} {n : Nat} {x : α} (h : x ∈ l.take 
 
 /-- **`MountFS.scandir`** (consumed entirely — `listdir`-like — or for its first entry, as `FS.isempty` does) -/
 theorem scan_spec (D : FS State) (F : FS σ) {K : Kind σ} {mps : List (List Name)} {ms : MState σ}
-    (hD : PrimRefines plainKind D) (hF : PrimRefines K F) (hinv : Inv K mps ms) (p : Str) (hnn : '\x00' ∉ p)
+    (hD : PrimRefines plainKind D) (hF : PrimRefines K F) (hinv : Inv K mps ms) (p : Str)
     (fo : Bool) :
     StepOk K mps ms (if fo then .isempty p else .listdir p) (scanRouted D F ms p fo) := by
   have hR : StepOk K mps ms (.listdir p) (routed D F ms p .listdir) :=
-    routed_spec D F hD hF hinv (.listdir p) p rfl rfl hnn (by simp [hitsFixture]) (by intro q h; cases h)
+    routed_spec D F hD hF hinv (.listdir p) p rfl rfl (by simp [hitsFixture]) (by intro q h; cases h)
       (by intro q m h; cases h)
   -- `scanRouted` = `routed` followed by `_scan_mount_points`, which is invisible
   have core : ∃ ms' o, scanRouted D F ms p fo = (ms', if fo then firstOf o else o) ∧
@@ -1310,19 +1318,18 @@ theorem stepOk_closed_irrelevant {K : Kind σ} {mps : List (List Name)} {ms : MS
     (k : MState σ × Out) : checked ms k = k := by
   simp [checked, hinv.opn]
 
-/-- **`MountFS.removedir`**: `normpath`, the root refused, the NORMALISED path delegated -/
+/-- **`MountFS.removedir`** (as repaired in /repo 48e26ed): `_delegate` on the raw path, then the root refused,
+then the member's `removedir` -/
 theorem removedir_spec (D : FS State) (F : FS σ) {K : Kind σ} {mps : List (List Name)} {ms : MState σ}
-    (hD : PrimRefines plainKind D) (hF : PrimRefines K F) (hinv : Inv K mps ms) (p : Str) (hnn : '\x00' ∉ p)
+    (hD : PrimRefines plainKind D) (hF : PrimRefines K F) (hinv : Inv K mps ms) (p : Str)
     (hfix : ¬ hitsFixture (fixOf K mps ms) (.removedir p)) :
     StepOk K mps ms (.removedir p) (prim D F ms (.removedir p)) := by
   have hGc : (glue K mps ms).closed = false := hinv.opn
   simp only [prim, stepOk_closed_irrelevant hinv]
   cases hv : validate p with
   | err e =>
-    obtain ⟨he, hn⟩ := normpath_of_validate_err hnn hv
-    subst he
     obtain ⟨h1, h2⟩ := step_of_validate_err hGc (op := .removedir p) rfl hv (by intro q m h; cases h)
-    simp only [hn]
+    simp only [delegate_err hv]
     refine ⟨hinv, rfl, by rw [h1]; rfl, ?_⟩
     rw [h1]
     refine ⟨fun h => by simp [fail, Res.isOk] at h, ?_⟩
@@ -1334,7 +1341,13 @@ theorem removedir_spec (D : FS State) (F : FS σ) {K : Kind σ} {mps : List (Lis
     have hcn := validate_clean p cs hv
     have hc : Clean cs := clean_of_cleanName hcn
     have hnorm := normpath_of_validate hv
-    simp only [hnorm]
+    have hdel : ∃ ir, delegate ms p = .ok ir := by
+      rw [delegate_spec hinv hv]
+      cases RouteSpec.routeSpec (idxFrom 1 mps) cs with
+      | none => exact ⟨_, rfl⟩
+      | some x => exact ⟨_, rfl⟩
+    obtain ⟨ir, hir⟩ := hdel
+    simp only [hir, Mount.normOf, hnorm]
     by_cases hroot : cs = []
     · subst hroot
       have hn0 : mkp (startsWithSlash p) [] = [] ∨ mkp (startsWithSlash p) [] = ['/'] := by
@@ -1357,50 +1370,29 @@ theorem removedir_spec (D : FS State) (F : FS σ) {K : Kind σ} {mps : List (Lis
         · exact hroot ((mkp_eq_nil_iff hc).1 h).2
         · exact hroot ((mkp_eq_slash_iff hc).1 h).2
       simp only [hn0, if_false]
-      have hvn : validate (mkp (startsWithSlash p) cs) = .ok cs := validate_mkp _ hcn
-      have hnn' : '\x00' ∉ mkp (startsWithSlash p) cs := noNul_mkp _ hcn
-      have hfix' : ¬ hitsFixture (fixOf K mps ms) (.removedir (mkp (startsWithSlash p) cs)) := by
-        intro ⟨cs', h1, h2⟩
-        rw [hvn] at h1; cases h1
-        exact hfix ⟨cs, hv, h2⟩
-      have hR := routed_spec D F hD hF hinv (.removedir (mkp (startsWithSlash p) cs)) _ rfl rfl hnn' hfix'
-        (by intro q h; cases h) (by intro q m h; cases h)
-      have e1 : Ref.step (glue K mps ms) (.removedir (mkp (startsWithSlash p) cs)) =
-          Ref.step (glue K mps ms) (.removedir p) :=
-        step_respell hGc (op := .removedir p) rfl hv hvn
-      have e2 : adm (glue K mps ms) (.removedir (mkp (startsWithSlash p) cs)) = adm (glue K mps ms) (.removedir p) :=
-        adm_respell hGc (op := .removedir p) rfl hv hvn
-      obtain ⟨j1, j2, j3, j4⟩ := hR
-      have hfun : (fun q => mapPaths (fun _ => q) (Op.removedir (mkp (startsWithSlash p) cs))) = Op.removedir := rfl
-      rw [hfun] at j1 j2 j3 j4
-      refine ⟨j1, j2, by rw [j3, e1], ?_⟩
-      rw [e1] at j4
-      refine ⟨j4.1, ?_⟩
-      intro e' he'
-      obtain ⟨e, g1, g2, _⟩ := j4.2 e' he'
-      exact ⟨e, g1, by rw [← e2]; exact g2, fun h => by simp [exactOp] at h⟩
+      exact routed_spec D F hD hF hinv (.removedir p) p rfl rfl hfix (by intro q h; cases h) (by intro q m h; cases h)
 
 /-- **every method MountFS defines refines its reference meaning on the glued tree** -/
 theorem prim_spec (D : FS State) (F : FS σ) {K : Kind σ} {mps : List (List Name)} {ms : MState σ}
     (hD : PrimRefines plainKind D) (hF : PrimRefines K F) (hinv : Inv K mps ms) (pr : Prim)
-    (hu : usedPrim pr = true) (hnn : '\x00' ∉ pr.path) (hfix : ¬ hitsFixture (fixOf K mps ms) (primOp pr)) :
+    (hu : usedPrim pr = true) (hfix : ¬ hitsFixture (fixOf K mps ms) (primOp pr)) :
     StepOk K mps ms (primOp pr) (prim D F ms pr) := by
   have hGc : (glue K mps ms).closed = false := hinv.opn
   have plain : ∀ (hgi : ∀ q, primOp pr ≠ .getinfo q)
       (hmode : ∀ q m, primOp pr = .openbin q m → (parseBinMode m).isSome = true),
       StepOk K mps ms (primOp pr) (routed D F ms pr.path (pr.memberOp ·)) := by
     intro hgi hmode
-    have := routed_spec D F hD hF hinv (primOp pr) pr.path (primOp_paths pr hu) (primOp_member hu) hnn hfix
+    have := routed_spec D F hD hF hinv (primOp pr) pr.path (primOp_paths pr hu) (primOp_member hu) hfix
       (fun q h => absurd h (hgi q)) hmode
     have hfun : (fun q => mapPaths (fun _ => q) (primOp pr)) = (pr.memberOp ·) := by
       funext q; exact (memberOp_mapPaths pr q hu).symm
     rw [hfun] at this
     exact this
   cases pr <;> simp only [usedPrim, Bool.false_eq_true] at hu
-  case getinfo p => simpa [prim, primOp, Prim.memberOp, Prim.path, stepOk_closed_irrelevant hinv] using getinfo_spec D F hD hF hinv p hnn
-  case scandir p => simpa [prim, primOp, Prim.memberOp, Prim.path, stepOk_closed_irrelevant hinv] using scan_spec D F hD hF hinv p hnn false
-  case scanFirst p => simpa [prim, primOp, Prim.memberOp, Prim.path, stepOk_closed_irrelevant hinv] using scan_spec D F hD hF hinv p hnn true
-  case removedir p => exact removedir_spec D F hD hF hinv p hnn hfix
+  case getinfo p => simpa [prim, primOp, Prim.memberOp, Prim.path, stepOk_closed_irrelevant hinv] using getinfo_spec D F hD hF hinv p
+  case scandir p => simpa [prim, primOp, Prim.memberOp, Prim.path, stepOk_closed_irrelevant hinv] using scan_spec D F hD hF hinv p false
+  case scanFirst p => simpa [prim, primOp, Prim.memberOp, Prim.path, stepOk_closed_irrelevant hinv] using scan_spec D F hD hF hinv p true
+  case removedir p => exact removedir_spec D F hD hF hinv p hfix
   case openbin p m =>
     simp only [prim]
     by_cases hmode : (parseBinMode m).isNone = true
@@ -1436,18 +1428,17 @@ theorem prim_spec (D : FS State) (F : FS σ) {K : Kind σ} {mps : List (List Nam
            obtain ⟨_, rfl⟩ := h
            decide))
 
-/-- **`MountFS.validatepath`** agrees with the reference's `validate` on NUL-free paths -/
+/-- **`MountFS.validatepath`** agrees with the reference's `validate` (every path: `_delegate` looks at the raw
+path's characters first, then normalises) -/
 theorem validate_spec (D : FS State) (F : FS σ) {K : Kind σ} {mps : List (List Name)} {ms : MState σ}
-    (hD : PrimRefines plainKind D) (hF : PrimRefines K F) (hinv : Inv K mps ms) (p : Str) (hnn : '\x00' ∉ p) :
+    (hD : PrimRefines plainKind D) (hF : PrimRefines K F) (hinv : Inv K mps ms) (p : Str) :
     validatepath D F ms p = (match validate p with | .ok _ => .ok () | .err e => .err e) := by
   simp only [validatepath, hinv.opn, Bool.false_eq_true, if_false]
   cases hv : validate p with
   | err e =>
-    obtain ⟨he, hn⟩ := normpath_of_validate_err hnn hv
-    subst he
-    simp [delegate_err hn]
+    simp [delegate_err hv]
   | ok cs =>
-    have hR := routed_spec D F hD hF hinv (.exists_ p) p rfl rfl hnn (by simp [hitsFixture]) (by intro q h; cases h)
+    have hR := routed_spec D F hD hF hinv (.exists_ p) p rfl rfl (by simp [hitsFixture]) (by intro q h; cases h)
       (by intro q m h; cases h)
     have hok : ((Ref.step (glue K mps ms) (.exists_ p)).2).isOk = true := by
       rw [step_of_validate hinv.opn rfl hv]; rfl
